@@ -27,6 +27,10 @@ THEOREMS = [
     "Gwcs.Poly.round_is_nearest",
     "Gwcs.Poly.round_commutes_with_integer_shift",
     "Gwcs.Poly.labels_last_wins",
+    "Gwcs.Poly.translate_equivariant",
+    "Gwcs.Poly.shift_harmless",
+    "Gwcs.Poly.aetLoop_perm_activeAt",
+    "Gwcs.Poly.scanMaskLoop_eq_scanMask",
 ]
 RULE = ("case = (polygon vertices, image shape, labels); lattice triangles/quadrilaterals at overhang offsets, random star-shaped/concave "
         "polygons <= 12 vertices with integer, fractional and exact-half vertices, multi-polygon label drawings; non-trivial = positive "
@@ -366,7 +370,7 @@ def gen(rng, tier):
         else:
             continue
         ny, nx = rng.randint(1, 9), rng.randint(1, 9)
-        dx, dy = rng.randint(-7, nx + 2), rng.randint(-7, ny + 2)
+        dx, dy = rng.randint(-5, nx), rng.randint(-5, ny)
         V = [(x + dx, y + dy) for x, y in P]
         yield {"kind": "scan", "src": "lattice", "verts": [list(map(float, v)) for v in V + [V[0]]], "ny": ny, "nx": nx,
                "pad": [rng.randint(0, 9), rng.randint(0, 9), rng.randint(0, 5), rng.randint(0, 5)]}
